@@ -8,6 +8,7 @@ line number, every truncation length and one over-length; and for catalogues eve
 loss, duplication, adjacent swap and in-place corruption, read with every error policy
 (DESIGN.md 5.7).  The entries themselves are seeded samples."""
 
+import hashlib
 import logging
 
 import numpy as np
@@ -354,7 +355,7 @@ def run_plan(plan, ctx):
         for op in faults:
             catalogue_fault(ctx, R, TleR, TleErr, cat_lines, entries, op)
             ctx.ops_done += 1
-    ctx.ev("done", len(entries), fhex(float(len(stored_text))))
+    ctx.ev("done", len(entries), hashlib.md5(stored_text.encode()).hexdigest()[:16])
     ctx.state(tuple(sorted((r["kind"], len(str(r["elnb"])), len(str(r["rev"])), r["designator"] is None, r["nddot"][0] == 0, r["bstar"][2], r["ndot_half_e8"] < 0) for r in recs)))
 
 
@@ -565,6 +566,7 @@ def catalogue_fault(ctx, R, TleR, TleErr, cat_lines, entries, op):
         logging.disable(old_disable)
     ctx.checks += 1
     ctx.probe("catalogue_fault_checked")
+    ctx.ev("catalogue_fault", kind, idx, pol, len(got), type(exc).__name__ if exc else "-", ",".join(str(t.norad_id) for t in got))
     fp = {"fault": kind, "policy": pol, "three_line": len(entries[0]["lines"]) == 3}
     desc = f"catalogue fault '{kind}' at line {idx} (policy {pol}, {'3' if fp['three_line'] else '2'}-line form, {len(entries)} entries)"
     damaged_then_valid = any(tg is None for _, tg in eff) and expected and True
